@@ -10,7 +10,7 @@ tlc = fnspec.tlc
 
 NSHARDS = 16
 VARIANTS = {"quick": 2, "thorough": 2}
-NRANDOM = {"quick": 250, "thorough": 4000}        # per shard
+NRANDOM = {"quick": 150, "thorough": 4000}        # per shard
 
 
 def _lower_s_delta(v):
@@ -42,12 +42,13 @@ def _violations(failures):
           for f in failures for c in f["c"] if c != "PRE"]
 
 
-def _selftest(ctx, files):
+def _selftest(ctx, files, failures):
   """Corrupted recorded cases must be rejected by the trace specification, the recorded ones accepted."""
   valid = invalid = None
+  rejected = set((f["file"], f["i"]) for f in failures)
   for f in files:
-    for case in json.load(open(f)):
-      if case["origin"] != "tlc":
+    for idx, case in enumerate(json.load(open(f))):
+      if case["origin"] != "tlc" or (f, idx + 1) in rejected:
         continue
       if valid is None and len(case["out"]) >= 2:
         valid = case
@@ -56,6 +57,9 @@ def _selftest(ctx, files):
     if valid and invalid:
       break
   if valid is None or invalid is None:
+    if failures:      # an implementation so broken that no recorded case is usable: it is being reported anyway
+      ctx.log("self-test skipped: no accepted recorded case to corrupt")
+      return
     raise tlc.MachineryError("self-test: no suitable recorded case")
   def shifted(case):
     case["out"][-1] += 1
@@ -92,7 +96,7 @@ def run(ctx):
   stray = [f for f in outside if f["case"]["origin"] != "random"]
   if stray:
     raise tlc.MachineryError("a non-random case is outside the specification's scope: %s" % (stray[0]["case"],))
-  _selftest(ctx, files)
+  _selftest(ctx, files, failures)
 
   by_origin, texts, nontrivial, raised = {}, set(), set(), 0
   samples = []
